@@ -565,6 +565,25 @@ namespace hv
         }
     };
 
+    // remembers the live VALUE of its input after every tick (a copy), per uid: the post-run fold oracle (OPT fold=) compares what
+    // the recovery fold of a recording yields at each of these instants with the value the series really had (C20)
+    inline std::map<long long, std::vector<std::pair<DateTime, Value>>> &live_values()
+    {
+        static thread_local std::map<long long, std::vector<std::pair<DateTime, Value>>> m;
+        return m;
+    }
+    template <typename Sch>
+    struct CLive
+    {
+        static constexpr auto name = "c_live";
+        HV_LIFECYCLE
+        static void eval(In<"a", Sch> a, Scalar<"uid", Int> uid, NodeView nv, DateTime now)
+        {
+            (void)nv;
+            live_values()[(long long)uid.value()].emplace_back(now, Value{a.base().value()});
+        }
+    };
+
     // tick-driven mirror (active input) and clock-driven probe (passive input)
     template <typename Sch>
     struct CMirror
